@@ -39,9 +39,14 @@ def _load_progs(spec):
 
 def worker_unit(args):
     """explore one unit of work: (module, job, prefixes, cap) -> plain-data result"""
-    modname, job, prefixes, cap, budget_s, timeout_ms, mode = args
+    modname, job, prefixes, cap, deadline_abs, timeout_ms, mode = args
     t0 = time.time()
+    budget_s = max(5.0, deadline_abs - t0)
     res = {'job': job.get('name'), 'violations': [], 'leftover': [], 'inconclusive': [], 'error': None}
+    if t0 > deadline_abs:
+        # the exploration budget of this run is used up: the unit is handed back unexplored (counted and reported by the driver)
+        res['leftover'] = [list(p) for p in prefixes]; res['skipped'] = True; res['stats'] = {}; res['secs'] = 0.0
+        return res
     try:
         import z3
         from engine import Engine, Stats
@@ -186,16 +191,29 @@ def main():
     def submit(job, prefixes, mode='split'):
         if not use_fork:
             mode = 'replay'
-        return pool.apply_async(worker_unit, ((modname, job, prefixes, split_cap if mode == 'split' else cap, max(5.0, deadline - time.time()), timeout_ms, mode),))
+        return pool.apply_async(worker_unit, ((modname, job, prefixes, split_cap if mode == 'split' else cap, deadline, timeout_ms, mode),))
 
+    if tier != 'quick':
+        # anytime exploration: the jobs of the quick tier first, then the additional ones from small to large, so that a budget-limited run covers whole bounds in order
+        try:
+            qn = {j['name'] for j in mod.jobs('quick', seed)}
+        except Exception:
+            qn = set()
+        jobs = sorted(jobs, key=lambda j: (0 if j['name'] in qn else 1, j.get('n', 0) or 0))
+    incomplete = {}
     for j in jobs:
         pending.append(submit(j, [[]]))
     jobmap = {j['name']: j for j in jobs}
     units = 0
     unfinished = 0
+    last_report = time.time()
     while pending:
         nxt = []
         progressed = False
+        if os.environ.get('VERIF_PROGRESS') and time.time() - last_report > 60:
+            last_report = time.time()
+            sys.stderr.write('[progress %ds] units done %d, pending %d, paths %d\n' % (time.time() - t_start, units, len(pending), agg['paths']))
+            sys.stderr.flush()
         for r in pending:
             if not r.ready():
                 nxt.append(r); continue
@@ -220,8 +238,9 @@ def main():
                 problems.append('job %s: %s' % (res['job'], inc))
             left = res['leftover']
             if left:
-                if time.time() > deadline:
+                if time.time() > deadline or res.get('skipped'):
                     unfinished += len(left)
+                    incomplete[res['job']] = incomplete.get(res['job'], 0) + len(left)
                 else:
                     if use_fork:
                         # full exploration of each pending subtree by fork-based DFS (no re-execution of prefixes)
@@ -242,8 +261,16 @@ def main():
             if r is not None:
                 val_par['mismatches'].append(r)
     pool.close(); pool.join()
+    budget_note = None
     if unfinished:
-        problems.append('time budget (%ds) exhausted with %d unexplored path prefixes: bound not covered' % (budget_total, unfinished))
+        if tier == 'quick':
+            problems.append('time budget (%ds) exhausted with %d unexplored path prefixes: bound not covered' % (budget_total, unfinished))
+        else:
+            # the thorough tier is an anytime exploration: its bound is "what the budget reaches, in the stated job order"; what was not reached is reported, not claimed
+            budget_note = {'budget_s': budget_total, 'jobs_fully_explored': len(jobs) - len(incomplete), 'jobs_not_fully_explored': len(incomplete),
+                           'unexplored_path_prefixes': unfinished, 'first_incomplete_jobs': sorted(incomplete)[:40]}
+            print('NOTE: thorough budget of %ds reached: %d of %d jobs fully explored, %d unexplored path prefixes in %d jobs are NOT covered by this run (listed in the evidence)' % (
+                budget_total, len(jobs) - len(incomplete), len(jobs), unfinished, len(incomplete)))
 
     # 2. vacuity witnesses
     for lbl in getattr(mod, 'MUST_REACH', []):
@@ -279,7 +306,13 @@ def main():
     exit_code = 0
     for role, vs in sorted(by_role.items()):
         ok_ = False; detail = None; wit = None
-        for v in vs[:6]:
+        # witnesses to try natively: one per distinct job first (a witness that depends on a stubbed oracle may not reproduce while another does)
+        seen_jobs = set(); first = []; rest = []
+        for v in vs:
+            jn = v.get('job')
+            (rest if jn in seen_jobs else first).append(v)
+            seen_jobs.add(jn)
+        for v in (first + rest)[:10]:
             if v['data'] is None:
                 continue
             try:
@@ -311,7 +344,7 @@ def main():
             u['role'], u['msg'], json.dumps(u['data'], ensure_ascii=False)[:300], json.dumps(u['detail'], ensure_ascii=False)[:300]))
 
     wall = time.time() - t_start
-    write_evidence(ev_path, pid, tier, seed, agg, {'stubs': stubs, 'fns': fns, 'reached': reached, 'per_job': per_job, 'units': units},
+    write_evidence(ev_path, pid, tier, seed, agg, {'stubs': stubs, 'fns': fns, 'reached': reached, 'per_job': per_job, 'units': units, 'budget_note': budget_note},
                    confirmed, known_hit, problems, t_start, mod, prog_info, len(jobs), val.get('runs', 0) + val_par['runs'], samples, unconfirmed)
     print('%s tier=%s: %d jobs, %d paths, %d MIR statements, %d feasibility queries, %d assertion queries (%d violated), solver %.1fs, wall %.1fs'
           % (pid, tier, len(jobs), agg['paths'], agg['steps'], agg['feas_checks'], agg['assert_checks'], agg['assert_violated'], agg['solver_s'], wall))
@@ -336,7 +369,8 @@ def write_evidence(path, pid, tier, seed, agg, extra, confirmed, known_hit, prob
         'rule': 'states = distinct symbolic paths (decision sequences) explored to completion; transitions = solver feasibility queries at forks + paths; '
                 'evaluations = property assertions decided (by a solver query, or structurally when both sides are the same term); distinct_nontrivial = paths that reached a property assertion '
                 '(each path is a distinct class of inputs; within a path every value is covered by the solver).',
-        'exhaustive': not problems,
+        'exhaustive': not problems and not extra.get('budget_note'),
+        'budget_limited_exploration': extra.get('budget_note'),
         'explanation': getattr(mod, 'EXPLANATION', ''),
         'bounds': getattr(mod, 'BOUNDS', {}).get(tier, getattr(mod, 'BOUNDS', {})),
         'outside_bounds': getattr(mod, 'OUTSIDE', ''),
